@@ -44,3 +44,14 @@ func Harness_C20_ResolveTypesUntidy() {
 	})
 	nd.Assert(label, !failed)
 }
+
+// return payloads as free text: the compiler stores whatever follows "return", so
+// "ok<:T" (no blanks), "<: T", "ok <:" and a plain word all occur in compiled models
+func Harness_C20_ReturnPayloadText() {
+	payload := []string{"ok <: T", "ok<:T", "<: T", "ok <:", "ok <: ", "<:", "ok", "a <: b <: c"}[nd.IntRange("payload", 0, 7)]
+	am := &AppMapper{Types: map[string]*sysl.Type{"App.T": {}}}
+	stmts := []*sysl.Statement{{Stmt: &sysl.Statement_Ret{Ret: &sysl.Return{Payload: payload}}}}
+	failed, msg := nd.Recovered(func() { am.mapResponse(stmts, "App") })
+	nd.Note(msg)
+	nd.Assert("export:return-payload-of-any-shape", !failed)
+}
